@@ -95,6 +95,11 @@ func runC18(c *core.Ctx, o Options) {
 	if f := c.Func("fix", "ValueByTag"); f != nil {
 		scope = append(scope, f)
 	}
+	// the checksum function is handed message bytes by the serializer and by the validation: a search for "10=" inside it is an
+	// end-of-message detection like the reader's
+	if f := c.Func("fix", "CalcCheckSum"); f != nil {
+		scope = append(scope, f)
+	}
 	readerGroup := map[*ssa.Function]bool{}
 	for _, g := range readerScope(c) {
 		scope = append(scope, g)
@@ -140,6 +145,7 @@ func runC18(c *core.Ctx, o Options) {
 		}
 	}
 	c.Explanation += " frame (= C04.F1–F3): the segment the end-of-message tag is compared with is a whole field — one ReadBytes(SOH) site, nothing read is dropped or re-used, a read error ends the reader."
+	checkKeyValuePlain(c, "raw")
 	c.RuleMin = map[string]int{"needle": 10, "raw": 4, "frame": 8}
 	c.MinObl = 13
 }
